@@ -56,7 +56,7 @@ LEVEL_TEXT = ('Generated-input exploration: start-radius and family independence
               'against an independently written Takeuchi-Saito matrix that is itself checked against the solver output.')
 LEVEL_NOTE = ('Trusts oracles/ts72.py (TS72 eq. 82, Saito 1974 eq. 17-18; self-tested on closed-form solutions) and 4th-order '
               'finite differences with h = 1e-3; Takeuchi solid starts are a recorded known finding.')
-CASES = {'quick': 480, 'thorough': 12000}
+CASES = {'quick': 960, 'thorough': 12000}
 SHARDS = {'quick': 16, 'thorough': 16}
 RULE = ('Hypothesis draws either a solver-level case (core kind, 0-2 solid layers above, l 2..8, log w^2R/g in [-8,-0.3], two log '
         'r0/R in [-4,-0.3], material parameters) or a vector-level case (layer kind, family, l 2..10, radius, rho, complex mu, K, '
@@ -82,7 +82,11 @@ def strategy(tier):
         'kind': st.just('solver'),
         'core': st.sampled_from(['Ssc', 'Sdc', 'Sdi', 'Ldc', 'Ldi', 'Lsc']),
         'n_above': st.integers(0, 2), 'l': st.integers(2, 8),
-        'logw2': st.floats(-8.0, -0.3), 'logr0a': st.floats(-4.0, -0.3), 'logr0b': st.floats(-4.0, -0.3),
+        # half of the second start radii and of the frequencies are drawn from the upper part of their ranges: a starting vector
+        # that is slightly off injects an irregular part that decays like (r0/r)^(2l+1) and (for a dynamic-term slip) scales with
+        # w^2 R/g, so only large r0 together with a high frequency can show it at the surface
+        'logw2': st.one_of(st.floats(-8.0, -0.3), st.floats(-3.0, -0.3)), 'logr0a': st.floats(-4.0, -0.3),
+        'logr0b': st.one_of(st.floats(-4.0, -0.3), st.floats(-1.0, -0.3)),
         'logR': st.floats(5.5, 7.5), 'logrho': st.floats(3.0, 4.0), 'logmu': st.floats(9.0, 11.5), 'argmu': st.floats(0.0, 1.0),
         'logK': st.floats(10.3, 12.0), 'core_top': st.floats(0.55, 0.75), 'nondim': st.booleans(),
         'compare': st.sampled_from(['radius', 'family']),
@@ -94,7 +98,11 @@ def strategy(tier):
         'logr': st.floats(2.0, 6.8), 'logrho': st.floats(3.0, 4.2), 'logmu': st.floats(9.0, 11.5), 'argmu': st.floats(0.0, 1.2),
         'logK': st.floats(10.0, 12.0), 'logw': st.floats(-7.0, -1.0), 'ode': st.sampled_from([False, False, False, True]),
     })
-    return st.one_of(solver, vector)
+    # a quarter of the solver cases stress the regime in which an inexact starting vector is visible at the surface at all:
+    # low degree, second start radius 0.2-0.5 R, w^2 R/g in 10^[-2.5,-0.3], start-radius comparison
+    stress = st.tuples(solver, st.integers(2, 3), st.floats(-0.7, -0.3), st.floats(-2.5, -0.3), st.floats(-3.0, -1.0)).map(
+        lambda t: dict(t[0], l=t[1], logr0b=t[2], logw2=t[3], logr0a=t[4], compare='radius'))
+    return st.one_of(solver, solver, solver, stress, vector, vector, vector, vector)
 
 
 def fixed_cases(tier):
@@ -440,6 +448,18 @@ def _evaluate_ode(case):
     if not out.success:
         return discard('oracle_integration_failed', labels)
     yR = out.y[:, -1] * scale_y
+    # conditioning of the propagation itself: the solver solves a boundary-value problem, the oracle an initial-value problem
+    # whose growing modes amplify any difference in y(r0) (soft, dense, large bodies: factor 1e5 and more).  Propagate the
+    # start values of the looser solve as well; where the two propagated end values differ by more than 1e-5 of the row scale
+    # the comparison cannot decide anything (discarded, counted), otherwise that difference joins the tolerance.
+    yb = np.array(solb.result)
+    outb = solve_ivp(rhs, (r[0], r[-1]), (yb[:, 0] / scale_y).astype(complex), method='DOP853', rtol=1e-11, atol=1e-14)
+    if not outb.success:
+        return discard('oracle_integration_failed', labels)
+    amp = np.abs(outb.y[:, -1] * scale_y - yR)
+    if not np.all(np.isfinite(amp)) or float(np.max(amp / scale_y)) > 1e-5:
+        return discard('ode_consistency_ivp_ill_conditioned', labels)
+    noise = noise + amp
     c = Collector(labels, nontrivial=True)
     for ci in range(6):
         rel = abs(yR[ci] - y[ci, -1]) / scale_y[ci]
